@@ -1,6 +1,7 @@
 package intr
 
 import (
+	"encoding/json"
 	"fmt"
 	"sort"
 )
@@ -317,14 +318,57 @@ func oracleC06(c *Case, obs *RunObs) *Failure {
 	if obs.CompileErr != "" || obs.Ref == nil {
 		return nil
 	}
+	if f := oracleSegs(c, obs.Segs); f != nil {
+		return f
+	}
+	if len(obs.Segs2) == 0 {
+		return nil
+	}
+	// the same compiled runnable driven a second time under another id: every clause again ...
+	if f := oracleSegs(c, obs.Segs2); f != nil {
+		f.What = "second run on the same compiled graph: " + f.What
+		return f
+	}
+	// ... and, where nothing depends on goroutine scheduling (no Workflow in the forest), call by call what
+	// the first run showed: the compiled graph keeps nothing of a run
+	if hasEager(c) {
+		return nil
+	}
+	sum := func(s *SegObs) string {
+		info, _ := json.Marshal(s.Info)
+		ms := multiset(s.Execs, true)
+		ks := make([]string, 0, len(ms))
+		for k, n := range ms {
+			ks = append(ks, fmt.Sprintf("%s*%d", k, n))
+		}
+		sort.Strings(ks)
+		return fmt.Sprintf("%s out=%s info=%s sets=%d execs=%v", s.Class, s.Out, info, s.Sets, ks)
+	}
+	for j := 0; j < len(obs.Segs) || j < len(obs.Segs2); j++ {
+		a, b := "(no such call)", "(no such call)"
+		if j < len(obs.Segs) {
+			a = sum(obs.Segs[j])
+		}
+		if j < len(obs.Segs2) {
+			b = sum(obs.Segs2[j])
+		}
+		if a != b {
+			return &Failure{fmt.Sprintf("second run on the same compiled graph (same input, another checkpoint id) differs at call %d: first run %s, second run %s", j, a, b), "second-run-differs"}
+		}
+	}
+	return nil
+}
+
+// oracleSegs evaluates the clauses on the calls of one driven run.
+func oracleSegs(c *Case, segs []*SegObs) *Failure {
 	ix := newIndex(c)
-	for j, s := range obs.Segs {
+	for j, s := range segs {
 		if s.Class == "panic" || s.Class == "hang" {
 			continue // C05 reports it
 		}
 		var prev *InfoObs
 		if j > 0 {
-			prev = obs.Segs[j-1].Info
+			prev = segs[j-1].Info
 		}
 		// (d) checkpoint written exactly when an interrupt error is returned and an id was given
 		wantSets := 0
@@ -333,6 +377,14 @@ func oracleC06(c *Case, obs *RunObs) *Failure {
 		}
 		if s.Sets != wantSets {
 			return &Failure{fmt.Sprintf("call %d (%s, id given: %v): %d checkpoint write(s), expected %d", j, s.Class, s.WithID, s.Sets, wantSets), fmt.Sprintf("store-writes-%s", s.Class)}
+		}
+		for _, id := range s.SetIDs {
+			if id != s.ID {
+				return &Failure{fmt.Sprintf("call %d: checkpoint written under id %q, the caller gave %q", j, id, s.ID), "store-write-wrong-id"}
+			}
+		}
+		if s.WrapLost {
+			return &Failure{fmt.Sprintf("call %d: the interrupt information cannot be extracted (or is not the same) once the caller wraps the returned error with %%w", j), "info-lost-when-wrapped"}
 		}
 		if s.Class == "interrupt" && infoEmpty(s.Info) {
 			return &Failure{fmt.Sprintf("call %d: interrupt error without any interrupt information", j), "info-empty"}
